@@ -28,7 +28,12 @@ def main():
         meta = json.loads((d / 'meta.json').read_text())
         checks = [c for c in a.checks.split(',') if c] or list(meta.get('checks', {})) or [meta['property']]
         wt = Path(tempfile.mkdtemp(prefix='seedre_')); shutil.rmtree(wt)
-        assert sh(f'git -C /repo worktree add -q --detach {wt} HEAD').returncode == 0
+        import time as _t
+        for _try in range(8):
+            if sh(f'git -C /repo worktree add -q --detach {wt} HEAD').returncode == 0: break
+            _t.sleep(2 + _try)
+        else:
+            print(name, 'could not create a scratch worktree'); continue
         try:
             ap_ = sh(f'git -C {wt} apply {d / "patch.diff"}')
             if ap_.returncode:
